@@ -133,6 +133,7 @@ let print_out name wantvalues (o : out) =
 
 let state : mstate option ref = ref None
 let incl = ref false
+let nomem = ref false
 let case_name = ref ""
 let take_topo () =
   let t = { t_root = !pend_root; t_objs = List.rev !pend_objs } in
@@ -147,7 +148,7 @@ let handle (l : string) =
   let w = List.filter (fun x -> x <> "") (String.split_on_char ' ' l) in
   match w with
   | [] -> ()
-  | "case" :: rest -> incl := false; state := None; pend_objs := []; cur_objs := []; case_name := String.concat " " rest
+  | "case" :: rest -> incl := false; nomem := false; state := None; pend_objs := []; cur_objs := []; case_name := String.concat " " rest
   | ["T"; "begin"] -> pend_objs := []
   | ["T"; "root"; c] -> pend_root := set_of_hex c
   | ["T"; "obj"; ty; gp; os; has; c; m; sub] ->
@@ -155,7 +156,8 @@ let handle (l : string) =
                    o_cpuset = set_of_hex c; o_mem = n_of_dec m; o_subtype = n_of_dec sub } :: !pend_objs
   | ["T"; "end"] -> ()
   | ["incl"; v] -> incl := bool01 v
-  | ["start"] -> state := Some (init_state (take_topo ()))
+  | ["nomem"; v] -> nomem := bool01 v
+  | ["start"] -> state := Some ((if !nomem then init_state_nomem else init_state) (take_topo ()))
   | ["end"] -> Printf.printf "E %s\n" !case_name
   | op :: args ->
     (try
@@ -180,8 +182,8 @@ let handle (l : string) =
         do_op op true (OAllow (!incl, so c, so n, n_of_dec f))
       | "retopo", [] -> let t = take_topo () in do_op "restrict" true (ORetopo t)
       | "dupsw", [] -> let _ = take_topo () in do_op "dup" true ODup
-      | "xmlsw", [] -> let t = take_topo () in do_op "xml" true (OXml t)
-      | "xmltsw", [] -> let t = take_topo () in do_op "xmlt" true (OXml t)
+      | "xmlsw", [] -> let t = take_topo () in do_op "xml" true (if !nomem then OXmlNoMem t else OXml t)
+      | "xmltsw", [] -> let t = take_topo () in do_op "xmlt" true (if !nomem then OXmlNoMem t else OXml t)
       | _ -> Printf.printf "R %s rc=-1 err=BADCASE\n" op
     with Badcase | Failure _ -> Printf.printf "R %s rc=-1 err=BADCASE\n" op)
 
